@@ -350,6 +350,12 @@ def str_eq(ctx: Ctx, x: VStr, y: VStr):
     if x.a.get_id() == y.a.get_id():
         if z3.simplify(x.lo).get_id() == z3.simplify(y.lo).get_id() and z3.simplify(x.hi).get_id() == z3.simplify(y.hi).get_id():
             return z3.BoolVal(True)
+    if x.pieces is not None and y.pieces is not None and len(x.pieces) == len(y.pieces) and \
+            x.lo.get_id() == y.lo.get_id() and all(
+                p.a.get_id() == q.a.get_id() and p.lo.get_id() == q.lo.get_id() and p.hi.get_id() == q.hi.get_id()
+                and o1.get_id() == o2.get_id() for (o1, p), (o2, q) in zip(x.pieces, y.pieces)) and \
+            z3.simplify(x.hi).get_id() == z3.simplify(y.hi).get_id():
+        return z3.BoolVal(True)      # the same pieces concatenated in the same order
     if y.conc is None and x.conc is not None:
         x, y = y, x
     if y.conc is not None and len(y.conc) <= 12:
